@@ -30,11 +30,9 @@ def bodyName (x : String) : Bool :=
   isUser x || x == "#value" || x == "#yield" || x == "#receive"
     || "#loop_".toList.isPrefixOf x.toList || "#endloop_".toList.isPrefixOf x.toList
 
-structure InvKitN (env : Env W HS) (P : St W HS → Prop) (Q : Val → Prop) (N : String → Prop) : Prop where
+structure InvKitB (env : Env W HS) (P : St W HS → Prop) (Q : Val → Prop) (N : String → Prop) : Prop where
   nUser : ∀ x, isUser x = true → N x
   nValue : N "#value"
-  nYield : N "#yield"
-  nReceive : N "#receive"
   int : ∀ n, Q (.int n)
   str : ∀ s, Q (.str s)
   noneV : Q .noneV
@@ -75,10 +73,25 @@ structure InvKitN (env : Env W HS) (P : St W HS → Prop) (Q : Val → Prop) (N 
   unsetLoc : ∀ st x, P st → P (updLoc st x none)
   interact : ∀ st name key ann v ovr, P st → N name → (v = .absent ∨ Q v) →
     P (interactSem env name key ann v ovr st).2 ∧ ResQ Q Q (interactSem env name key ann v ovr st).1
-  yield : ∀ st y, P st → Q y → P (doYield env y st).2 ∧ ResQ Q Q (doYield env y st).1
   pushCur : ∀ st e, P st → Q e → P { st with cur := e :: st.cur }
   popCur : ∀ st, P st → P { st with cur := st.cur.tail }
   curQ : ∀ st e, P st → e ∈ st.cur → Q e
+
+/-- the three steps of a `yield` expression: report the value, suspend, report what was sent -/
+def yieldSeq (env : Env W HS) (x : Val) : M W HS Val :=
+  hook env "#yield" (some exitAnn) x >>= fun y => doYield env y >>= fun r => hook env "#receive" (some enterAnn) r
+
+/-- the kit: every primitive keeps `P` and answers within `Q`; a `yield` expression as a whole does -/
+structure InvKitN (env : Env W HS) (P : St W HS → Prop) (Q : Val → Prop) (N : String → Prop) : Prop
+    extends InvKitB env P Q N where
+  yieldE : ∀ st x, P st → Q x → P (yieldSeq env x st).2 ∧ ResQ Q Q (yieldSeq env x st).1
+
+/-- … or, step by step: the two events of a `yield` are ordinary interactions -/
+structure InvKitS (env : Env W HS) (P : St W HS → Prop) (Q : Val → Prop) (N : String → Prop) : Prop
+    extends InvKitB env P Q N where
+  nYield : N "#yield"
+  nReceive : N "#receive"
+  yield : ∀ st y, P st → Q y → P (doYield env y st).2 ∧ ResQ Q Q (doYield env y st).1
 
 /-- the kit for the names the body of a function may issue (loop markers included) -/
 abbrev InvKit (env : Env W HS) (P : St W HS → Prop) (Q : Val → Prop) : Prop :=
@@ -139,7 +152,7 @@ theorem invM_lookup {env : Env W HS} (kit : InvKitN env P Q N) (x : String) (hx 
 theorem invM_setLoc {env : Env W HS} (kit : InvKitN env P Q N) (x : String) (v : Val) (hv : Q v) :
     InvM P Q (fun _ => True) (setLoc x (some v)) := fun st hp => ⟨kit.setLoc st x v hp hv, trivial⟩
 
-theorem invM_hook {env : Env W HS} (kit : InvKitN env P Q N) (name : String) (hn : N name)
+theorem invM_hookB {env : Env W HS} (kit : InvKitB env P Q N) (name : String) (hn : N name)
     (ann : Option Ann) (v : Val) (hv : Q v) (keyed : Bool) (key : Val) :
     InvM P Q Q (hook env name ann v keyed key) := by
   unfold hook
@@ -150,6 +163,18 @@ theorem invM_hook {env : Env W HS} (kit : InvKitN env P Q N) (name : String) (hn
     split
     · exact fun st hp => kit.interact st name key _ v true hp hn (Or.inr hv)
     · exact invM_pure _ _ hv
+
+theorem invM_hook {env : Env W HS} (kit : InvKitN env P Q N) (name : String) (hn : N name)
+    (ann : Option Ann) (v : Val) (hv : Q v) (keyed : Bool) (key : Val) :
+    InvM P Q Q (hook env name ann v keyed key) := invM_hookB kit.toInvKitB name hn ann v hv keyed key
+
+/-- a step-by-step kit is a kit -/
+theorem InvKitS.toN {env : Env W HS} (kit : InvKitS env P Q N) : InvKitN env P Q N where
+  toInvKitB := kit.toInvKitB
+  yieldE := fun st x hp hx =>
+    (invM_bind (invM_hookB kit.toInvKitB "#yield" kit.nYield (some exitAnn) x hx false .noneV) fun y hy =>
+      invM_bind (fun st hp => kit.yield st y hp hy) fun r hr =>
+        invM_hookB kit.toInvKitB "#receive" kit.nReceive (some enterAnn) r hr false .noneV) st hp
 
 theorem bodyName_loop (x : String) : bodyName ("#loop_" ++ x) = true := by
   have : "#loop_".toList.isPrefixOf ("#loop_" ++ x).toList = true := by
@@ -251,16 +276,11 @@ theorem invE {env : Env W HS} {P : St W HS → Prop} {Q : Val → Prop} {N : Str
     cases v with
     | none =>
       simp only [evalE, pure_bind_M]
-      exact invM_bind (invM_hook kit "#yield" kit.nYield (some exitAnn) .noneV kit.noneV false .noneV) fun y hy =>
-        invM_bind (fun st hp => kit.yield st y hp hy) fun r hr =>
-          invM_hook kit "#receive" kit.nReceive (some enterAnn) r hr false .noneV
+      exact fun st hp => kit.yieldE st .noneV hp kit.noneV
     | some e0 =>
       simp only [coreE] at h
       simp only [evalE]
-      exact invM_bind (invE kit e0 h) fun x hx =>
-        invM_bind (invM_hook kit "#yield" kit.nYield (some exitAnn) x hx false .noneV) fun y hy =>
-          invM_bind (fun st hp => kit.yield st y hp hy) fun r hr =>
-            invM_hook kit "#receive" kit.nReceive (some enterAnn) r hr false .noneV
+      exact invM_bind (invE kit e0 h) fun x hx => fun st hp => kit.yieldE st x hp hx
   | .interact .., h => by simp [coreE] at h
   | .opaque src loads s0 a0, h => by
     simp only [coreE, List.all_eq_true] at h
